@@ -4,6 +4,7 @@ CONSTANTS
   Procs = {1, 2}
   Prog <- P2
   MaxNodes = 4
+  TailSkip = FALSE
   NoValidate = TRUE
 INVARIANT LinOK
 INVARIANT StructureOK
